@@ -16,3 +16,29 @@ reg("C13", "c13", [("histories", "plain", 1)], "exploration",
                "Exploration, not exhaustive: histories up to 14 steps over pools of <=4 variables.",
     level_note="Trusts the list model (20 lines) and, for solve steps, that a freshly constructed op is correct.",
     design_ref="4/C13")
+
+CONE_GEN = ("Hypothesis draws a cone structure dims={l<=4, q: <=2 cones of size 1-4, s: <=2 cones of order 0-3} "
+            "(thorough: larger), n<=5, p<=2, small dyadic G/A and planted points; data are materialised as "
+            "planted strictly feasible / planted primal-infeasible (Farkas certificate) / planted unbounded / "
+            "unplanted random problems, with junk written into the unreferenced upper triangles of 's' blocks; ")
+
+reg("C01", "c01", [("certificates", "plain", 1)], "exploration",
+    rule=CONE_GEN + "configuration = entry point (conelp/lp/socp/sdp) x kktsolver (default, ldl, ldl2, qr, chol, chol2, "
+         "numpy callable, callable wrapping kkt_ldl) x dense/sparse G,A x start points x tolerance/refinement/maxiters "
+         "options x back-end (glpk, dsdp). Every result with status 'optimal' is re-judged in numpy from the caller's "
+         "data; wrappers are also compared block-for-block with conelp on the documented assembly. "
+         "Non-trivial = status 'optimal' after >=1 iteration with a q/s block of size >=2, or a non-default "
+         "kktsolver, a start point, sparse G or an external back-end; distinct = SHA-1 of the case JSON.",
+    assumptions=["rank-deficient data ([G;A] or A, verified by SVD in the generator) are outside the documented "
+                 "domain and skipped (counted as skipped:rank_deficient)",
+                 "GLPK/DSDP results are judged at the back-end's own tolerance (1e-6 / 1e-4), native results at the "
+                 "requested feastol/abstol/reltol; field consistency at 1e-9 relative to the natural norm product",
+                 "exceptions raised by a solve are judged by C05/C10, here only counted",
+                 "dsdp.c/glpk.c cannot be rebuilt (headers absent): the prebuilt wheel binaries are used"],
+    technique="property-based testing (Hypothesis) with an independent numpy certificate oracle; wrapper-vs-conelp differential",
+    level_text="Each generated solve that claims 'optimal' is checked as a certificate against the caller's own data "
+               "(residual norms, cone membership by eigenvalues, gap criterion, every accuracy field) and wrappers "
+               "against conelp; ~6e3 (quick) / 1.5e5 (thorough) solves over all entry points, KKT solvers and back-ends. "
+               "Exploration: sizes are small (n<=5, cones <=4).",
+    level_note="Trusts numpy linear algebra and vlib/ref_cone.py (cone algebra written from coneprog.rst).",
+    design_ref="4/C01")
